@@ -27,7 +27,8 @@ def free_port():
 
 class Server(object):
     def __init__(self, kind="sync", workers=1, bind="tcp", timeout=30, graceful=4, extra=(), conf_lines=(), pidfile=True,
-                 env=None, threads=None, keepalive=None, bind_in_conf=False, daemon=False):
+                 env=None, threads=None, keepalive=None, bind_in_conf=False, daemon=False, pre_gid=None,
+                 extra_binds=()):
         self.scratch = tempfile.mkdtemp(prefix="verif-r-")
         os.chmod(self.scratch, 0o755)
         self.kind = kind
@@ -69,8 +70,14 @@ class Server(object):
         if env:
             e.update(env)
         self.logf = open(self.log, "ab")
+        for b in extra_binds:
+            args[args.index("rapp:app"):args.index("rapp:app")] = ["-b", b]
+        pre = None
+        if pre_gid is not None:
+            def pre():      # master started as root:<pre_gid> with root's supplementary groups
+                os.setgid(pre_gid)
         self.proc = subprocess.Popen(args, cwd=self.scratch, env=e, stdout=self.logf, stderr=self.logf, stdin=subprocess.DEVNULL,
-                                     start_new_session=True)
+                                     start_new_session=True, preexec_fn=pre)
         self.pid = self.proc.pid
         self.sid = self.pid
         self.extra_masters = []
